@@ -165,6 +165,8 @@ type Exec struct {
 	wfHeaps   map[string]bool
 	lateAxioms []lateAxiom
 	bounded   int // >0: bounded concretisation mode (loop unroll bound)
+	pendingBinds []Value
+	specEval  int
 	boundedRun bool // bounded stand-in run of a contract with "bounded" clauses
 	boundN    int
 	underBinder int
@@ -262,6 +264,9 @@ func (x *Exec) record(st *State, kind, label, goal string, pos token.Pos, trivia
 func (x *Exec) safetyCheck(st *State, kind string, goal string, pos token.Pos) {
 	if goal == tTrue {
 		return
+	}
+	if x.specEval > 0 {
+		return // reads made while evaluating a contract expression: no run-time check
 	}
 	if x.safety {
 		x.oblige(st, kind, x.posString(pos), goal, pos)
